@@ -88,10 +88,38 @@ class Cmp:
         else:
             self.conds.append((path, r.z if isinstance(r, S.SymBool) else r))
 
+    ordered_mappings = False      # twin: insertion order of a mapping counts as part of its value
+
+    def mapping(self, ea, eb, path):
+        """two lists of [key, value] with pairwise distinct keys denote the same mapping"""
+        if len(ea) != len(eb):
+            self.diffs.append(path + "{size}")
+            return
+        for i, (ka, va) in enumerate(ea):
+            alts, hit = [], False
+            for kb, vb in eb:
+                sub = Cmp()
+                sub.walk(ka, kb)
+                sub.walk(va, vb)
+                r = sub.result()
+                if r is True:
+                    hit = True
+                    break
+                if r is not False:
+                    alts.append(r)
+            if hit:
+                continue
+            if not alts:
+                self.diffs.append(path + "/entry%d" % i)
+            else:
+                self.conds.append((path + "/entry%d" % i, z3.Or(*alts) if len(alts) > 1 else alts[0]))
+
     def walk(self, a, b, path=""):
         if a is b:
             return
-        if isinstance(a, dict) and isinstance(b, dict):
+        if isinstance(a, dict) and isinstance(b, dict) and "__mapping__" in a and "__mapping__" in b and not Cmp.ordered_mappings:
+            self.mapping(a["__mapping__"], b["__mapping__"], path)
+        elif isinstance(a, dict) and isinstance(b, dict):
             if set(a) != set(b):
                 self.diffs.append(path + "{keys}")
                 return
@@ -782,6 +810,73 @@ def _ann_is_set(ann):
     return False
 
 
+def _package_files():
+    out = []
+    for d, _, files in sorted(os.walk(SCAN_ROOT)):
+        if any(x in d for x in SCAN_SKIP):
+            continue
+        out += [os.path.join(d, f) for f in sorted(files) if f.endswith(".py")]
+    return out
+
+
+def class_info():
+    """package-wide: class name -> base class names, and class name -> attributes that hold a set
+    (``self.x = set(...)`` / set display / comprehension / frozenset, ``self.x: set[...]``, class-level
+    ``x: set[...]``, and properties whose return annotation is a set type).  Classes are identified by
+    simple name across modules, so ``self._namelist`` in a subclass defined in another module is typed."""
+    import ast
+    if "classes" in _SCAN_CACHE:
+        return _SCAN_CACHE["classes"]
+    bases, attrs = {}, {}
+
+    def syntactic_set(e):
+        return isinstance(e, (ast.Set, ast.SetComp)) or (
+            isinstance(e, ast.Call) and isinstance(e.func, ast.Name) and e.func.id in ("set", "frozenset"))
+
+    for path in _package_files():
+        with open(path, encoding="utf-8") as f:
+            tree = ast.parse(f.read())
+        for cls in [n for n in ast.walk(tree) if isinstance(n, ast.ClassDef)]:
+            bases.setdefault(cls.name, set()).update(
+                b.id if isinstance(b, ast.Name) else b.attr for b in cls.bases if isinstance(b, (ast.Name, ast.Attribute)))
+            mine = attrs.setdefault(cls.name, set())
+            for st in cls.body:
+                if isinstance(st, ast.AnnAssign) and isinstance(st.target, ast.Name) and _ann_is_set(st.annotation):
+                    mine.add(st.target.id)
+                if isinstance(st, (ast.FunctionDef, ast.AsyncFunctionDef)):
+                    is_prop = any((isinstance(d_, ast.Name) and d_.id in ("property", "cached_property")) or
+                                  (isinstance(d_, ast.Attribute) and d_.attr in ("property", "cached_property"))
+                                  for d_ in st.decorator_list)
+                    if is_prop and _ann_is_set(st.returns):
+                        mine.add(st.name)
+                    for n in ast.walk(st):
+                        tgt = val = ann = None
+                        if isinstance(n, ast.Assign):
+                            tgt, val = n.targets, n.value
+                        elif isinstance(n, ast.AnnAssign):
+                            tgt, val, ann = [n.target], n.value, n.annotation
+                        for t in tgt or []:
+                            if isinstance(t, ast.Attribute) and isinstance(t.value, ast.Name) and t.value.id in ("self", "cls"):
+                                if (val is not None and syntactic_set(val)) or _ann_is_set(ann):
+                                    mine.add(t.attr)
+    _SCAN_CACHE["classes"] = (bases, attrs)
+    return bases, attrs
+
+
+def class_set_attrs(cls_name):
+    """set-typed attributes of a class including those of its (package) base classes"""
+    bases, attrs = class_info()
+    out, todo, seen = set(), [cls_name], set()
+    while todo:
+        c = todo.pop()
+        if c in seen:
+            continue
+        seen.add(c)
+        out |= attrs.get(c, set())
+        todo += list(bases.get(c, ()))
+    return out
+
+
 def scan_source(src, filename):
     """Locate the places where the iteration order of a set can become the order of a sequence:
     list/tuple/enumerate/iter/zip/map/filter(set), '<sep>'.join(set), set.pop(), list.extend(set),
@@ -797,6 +892,7 @@ def scan_source(src, filename):
             ch._parent = n
     tree._parent = None
     attrs, scopes = set(), {}
+    all_class_attrs = set().union(*class_info()[1].values()) if class_info()[1] else set()
 
     def scope_of(node):
         n = node
@@ -831,7 +927,32 @@ def scan_source(src, filename):
         if isinstance(e, ast.Name):
             return bound(scope_of(e), e.id)
         if isinstance(e, ast.Attribute):
-            return e.attr in attrs and isinstance(e.value, ast.Name) and e.value.id in ("self", "cls")
+            par = getattr(e, "_parent", None)
+            if isinstance(par, ast.Call) and par.func is e:
+                return False                              # obj.name(...) is a call, not the attribute's value
+            if not isinstance(e.value, ast.Name):
+                return False
+            if e.value.id in ("self", "cls"):
+                if e.attr in attrs:
+                    return True
+                cls = e
+                while cls is not None and not isinstance(cls, ast.ClassDef):
+                    cls = cls._parent
+                return cls is not None and e.attr in class_set_attrs(cls.name)
+            # other object (ctx.namelist): by the parameter's annotated class when there is one, else by
+            # attribute name alone (over-approximation: an unevaluable site is inconclusive, never green)
+            if e.attr not in all_class_attrs:
+                return False
+            fn = e
+            while fn is not None and not isinstance(fn, (ast.FunctionDef, ast.AsyncFunctionDef)):
+                fn = fn._parent
+            if fn is not None:
+                for a_ in fn.args.args + fn.args.kwonlyargs + fn.args.posonlyargs:
+                    if a_.arg == e.value.id and a_.annotation is not None:
+                        ann = ast.unparse(a_.annotation).strip("'\"").split("[")[0].split(".")[-1].split("|")[0].strip()
+                        if ann in class_info()[0]:
+                            return e.attr in class_set_attrs(ann)
+            return True
         if isinstance(e, ast.IfExp):
             return is_set(e.body) or is_set(e.orelse)
         if isinstance(e, ast.BoolOp):
@@ -924,15 +1045,11 @@ def scan_sites():
     if "*" in _SCAN_CACHE:
         return _SCAN_CACHE["*"]
     out = _SCAN_CACHE["*"] = {}
-    for d, _, files in sorted(os.walk(SCAN_ROOT)):
-        if any(x in d for x in SCAN_SKIP):
-            continue
-        for f in sorted(files):
-            if f.endswith(".py"):
-                per_fn = {}
-                for site, node, tree in scan_file(os.path.join(d, f)):
-                    k = per_fn[site["function"]] = per_fn.get(site["function"], 0) + 1
-                    out["%s::%s::%d" % (site["file"], site["function"], k)] = (site, node, tree)
+    for path in _package_files():
+        per_fn = {}
+        for site, node, tree in scan_file(path):
+            k = per_fn[site["function"]] = per_fn.get(site["function"], 0) + 1
+            out["%s::%s::%d" % (site["file"], site["function"], k)] = (site, node, tree)
     return out
 
 
@@ -1325,16 +1442,176 @@ def _drive_deserialize(ctx, key):
     return out, out, data
 
 
-SITE_DRIVERS = {
-    "sharepoint2text/parsing/extractors/ms_modern/docx_extractor.py::read_docx::1": _drive_docx,
-    "sharepoint2text/parsing/extractors/open_office/odt_extractor.py::_extract_styles_from_context::1": _drive_odt,
-    "sharepoint2text/parsing/extractors/serialization.py::_deserialize_dataclass::1": _drive_deserialize,
-}
-SEQUENCE_SITES = set(list(SITE_DRIVERS)[:2])     # the value at the site is itself a list that becomes a result field
+class SymKeyDict:
+    """dict stand-in whose keys may be symbolic strings: key equality is decided by the solver (a fork
+    per comparison), insertion order is kept, a store to an existing key replaces the value"""
+
+    def __init__(self):
+        self.entries = []
+
+    def _find(self, k):
+        for i, (kk, _) in enumerate(self.entries):
+            if PermSet._eq(kk, k):
+                return i
+        return -1
+
+    def __setitem__(self, k, v):
+        i = self._find(k)
+        if i < 0:
+            self.entries.append([k, v])
+        else:
+            self.entries[i][1] = v
+
+    def __getitem__(self, k):
+        i = self._find(k)
+        if i < 0:
+            raise KeyError(k)
+        return self.entries[i][1]
+
+    def get(self, k, default=None):
+        i = self._find(k)
+        return default if i < 0 else self.entries[i][1]
+
+    def setdefault(self, k, default=None):
+        i = self._find(k)
+        if i < 0:
+            self.entries.append([k, default])
+            return default
+        return self.entries[i][1]
+
+    def __contains__(self, k):
+        return self._find(k) >= 0
+
+    def __len__(self):
+        return len(self.entries)
+
+    def __iter__(self):
+        return iter([k for k, _ in self.entries])
+
+    keys = __iter__
+
+    def values(self):
+        return iter([v for _, v in self.entries])
+
+    def items(self):
+        return iter([(k, v) for k, v in self.entries])
+
+    def state(self):
+        return {"__mapping__": [[view(k), view(v)] for k, v in self.entries]}
+
+
+def _loop_string_constants(key):
+    """string constants of the loop at the site (the tests its body applies to a member name)"""
+    import ast
+    site, node, tree = scan_sites()[key]
+    loop = node if isinstance(node, ast.For) else _enclosing(node, (ast.For,))
+    return [c.value for c in ast.walk(loop) if isinstance(c, ast.Constant) and isinstance(c.value, str)] if loop else []
+
+
+_P_NS = "http://schemas.openxmlformats.org/presentationml/2006/main"
+_R_NS = "http://schemas.openxmlformats.org/officeDocument/2006/relationships"
+
+
+def write_pptx_with_members(extra_members, n_slides=2):
+    """minimal PresentationML package with n slides plus the given extra members (name -> comment-list part whose
+    one comment says which member it is)"""
+    A = "http://schemas.openxmlformats.org/drawingml/2006/main"
+    PKG = "http://schemas.openxmlformats.org/package/2006/relationships"
+    ct = ('<?xml version="1.0" encoding="UTF-8"?><Types xmlns="http://schemas.openxmlformats.org/package/2006/content-types">'
+          '<Default Extension="rels" ContentType="application/vnd.openxmlformats-package.relationships+xml"/>'
+          '<Default Extension="xml" ContentType="application/xml"/></Types>')
+    prs = ('<?xml version="1.0" encoding="UTF-8"?><p:presentation xmlns:p="%s" xmlns:r="%s"><p:sldIdLst>%s</p:sldIdLst></p:presentation>'
+           % (_P_NS, _R_NS, "".join('<p:sldId id="%d" r:id="rId%d"/>' % (256 + i, i + 1) for i in range(n_slides))))
+    prs_rels = ('<?xml version="1.0" encoding="UTF-8"?><Relationships xmlns="%s">%s</Relationships>'
+                % (PKG, "".join('<Relationship Id="rId%d" Type="%s/slide" Target="slides/slide%d.xml"/>' % (i + 1, _R_NS, i + 1)
+                                for i in range(n_slides))))
+    slide = ('<?xml version="1.0" encoding="UTF-8"?><p:sld xmlns:p="%s" xmlns:a="%s" xmlns:r="%s"><p:cSld><p:spTree><p:sp><p:nvSpPr>'
+             '<p:cNvPr id="2" name="Title"/><p:cNvSpPr/><p:nvPr><p:ph type="title"/></p:nvPr></p:nvSpPr><p:spPr/><p:txBody><a:bodyPr/>'
+             '<a:p><a:r><a:t>Slide %%d</a:t></a:r></a:p></p:txBody></p:sp></p:spTree></p:cSld></p:sld>' % (_P_NS, A, _R_NS))
+    members = [("[Content_Types].xml", ct), ("ppt/presentation.xml", prs), ("ppt/_rels/presentation.xml.rels", prs_rels)]
+    members += [("ppt/slides/slide%d.xml" % (i + 1), slide % (i + 1)) for i in range(n_slides)]
+    taken = {n for n, _ in members}
+    for i, name in enumerate(extra_members):
+        if name in taken:
+            continue
+        taken.add(name)
+        members.append((name, '<?xml version="1.0" encoding="UTF-8"?><p:cmLst xmlns:p="%s"><p:cm authorId="0" dt="2024-01-01T00:00:00" '
+                              'idx="1"><p:pos x="10" y="10"/><p:text>comment stored in member %d</p:text></p:cm></p:cmLst>' % (_P_NS, i)))
+    return _zip_bytes(members)
+
+
+def _drive_pptx_namelist(ctx, key):
+    """_PptxContext._load_xml_files on an object whose _namelist is a set of symbolic member names (every character
+    symbolic, so that the loop body's own startswith / endswith / lower / == decide); observed afterwards through the
+    class's own accessor get_comment_root(slide number) and the other cached roots"""
+    import importlib
+    n = ctx.params.get("n", 2)
+    if ctx.concrete:
+        lens = ctx.params.get("lens", [25, 4])
+    else:
+        consts = _loop_string_constants(key)
+        lens = [sum(len(c) for c in consts) + 1, 4] + ([21] if ctx.params.get("slide_length_names") else [])
+    names = []
+    for i in range(n):
+        ln = lens[ctx.pick("member%d_length" % i, len(lens))]
+        names.append(ctx.fresh_chars("member%d" % i, ln, 45, 122))
+    if ctx.concrete:
+        k = len(set(names))
+        runs = run_under_seeds({"kind": "read", "name": "x.pptx",
+                                "data": base64.b64encode(write_pptx_with_members(names)).decode()},
+                               range(24) if k >= 2 else range(2))
+        return [r["sha"] for _, r in runs], [r["sha"] for _, r in runs], names
+    mod = importlib.import_module("sharepoint2text.parsing.extractors.ms_modern.pptx_extractor")
+    cls = mod._PptxContext
+    slide_paths = ["ppt/slides/slide1.xml", "ppt/slides/slide2.xml"]
+
+    class Fake:
+        def __init__(self):
+            self._namelist = PermSet(names)
+            self.namelist = self._namelist
+            self._core_root = self._presentation_root = self._presentation_rels_root = None
+            self._slide_roots, self._slide_rels_roots, self._comment_roots = SymKeyDict(), SymKeyDict(), SymKeyDict()
+            self._slide_order, self._slide_relationships = None, SymKeyDict()
+
+        def read_xml_root(self, path):
+            return ["xml root of member", path]
+
+        def exists(self, path):
+            return path in self._namelist
+
+        def _compute_slide_order(self):
+            return list(slide_paths)
+    out = []
+    for fam in ("order1", "order2"):
+        _Perm.family, _Perm.sets = fam, 0
+        fake = Fake()
+        try:
+            cls._load_xml_files(fake)
+            seen = {"comment_root_of_slide": [view(cls.get_comment_root(fake, d)) for d in (1, 2)],
+                    "core": view(fake._core_root), "presentation": view(fake._presentation_root),
+                    "slides": fake._slide_roots.state(), "slide_rels": fake._slide_rels_roots.state()}
+            if ctx.perturb == "insertion_order_counts":
+                seen["comments_in_insertion_order"] = [view(k_) for k_ in fake._comment_roots]
+        except S.Unsupported:
+            raise
+        except Exception as e:
+            seen = {"__raised__": type(e).__name__, "msg": str(e)[:80]}
+        out.append(seen)
+    return out, out, names
+
+
+SITE_PPTX = "sharepoint2text/parsing/extractors/ms_modern/pptx_extractor.py::_PptxContext._load_xml_files::1"
+SITE_DOCX = "sharepoint2text/parsing/extractors/ms_modern/docx_extractor.py::read_docx::1"
+SITE_ODT = "sharepoint2text/parsing/extractors/open_office/odt_extractor.py::_extract_styles_from_context::1"
+SITE_DESER = "sharepoint2text/parsing/extractors/serialization.py::_deserialize_dataclass::1"
+# docx / odt: the style-list sites of the two repaired findings (8cae066); their models stay so that the sites are
+# evaluated again should they come back
+SITE_DRIVERS = {SITE_PPTX: _drive_pptx_namelist, SITE_DOCX: _drive_docx, SITE_ODT: _drive_odt, SITE_DESER: _drive_deserialize}
+SEQUENCE_SITES = {SITE_DOCX, SITE_ODT}     # the value at the site is itself a list that becomes a result field
 
 
 def k2_set_order(ctx):
-    key = ctx.params.get("site", list(SITE_DRIVERS)[0])
+    key = ctx.params.get("site", SITE_DESER)
     if key not in SITE_DRIVERS:
         raise S.BoundExceeded("set-to-sequence site without an evaluation model: %s" % key)
     if not ctx.concrete:
@@ -1342,6 +1619,8 @@ def k2_set_order(ctx):
             raise S.BoundExceeded("site %s is no longer found by the scan" % key)
         _Perm.ctx = ctx
         _Perm.symbolic_strings = key in SEQUENCE_SITES
+        ctx.decision_memo = {}
+    Cmp.ordered_mappings = ctx.perturb == "insertion_order_counts"
     results, full, inputs = SITE_DRIVERS[key](ctx, key)
     info = dict(site=key, inputs=repr(inputs)[:120])
     first = results[0]
@@ -1350,7 +1629,7 @@ def k2_set_order(ctx):
             same_content = _permutation_of(first, other) if ctx.perturb != "rearrangement_counts_as_change" else same(first, other)[0]
             ctx.require(same_content, "set-order-changes-content", a=repr(first)[:80], b=repr(other)[:80], **info)
         r, where = same(other_full, full[0])
-        ctx.require(r, "set-order-leaks-into-result", a=repr(first)[:80], b=repr(other)[:80], **info)
+        ctx.require(r, "set-order-leaks-into-result", differs_at=where, a=repr(first)[:80], b=repr(other)[:80], **info)
     ctx.require(True, "evaluated")
 
 
@@ -1359,17 +1638,26 @@ def _k2_parts(tier):
     for key in sorted(scan_sites()):
         if key in SEQUENCE_SITES:
             parts += [{"site": key, "n": n, "name_len": 2} for n in ((1, 2, 3) if tier == "quick" else (1, 2, 3, 4))]
+        elif key == SITE_PPTX:
+            parts += [{"site": key, "n": n} for n in (1, 2)]
+            if tier != "quick":
+                parts.append({"site": key, "n": 3})
+                parts.append({"site": key, "n": 2, "slide_length_names": True})
         else:
-            parts.append({"site": key})
+            parts.append({"site": key})          # no model: the harness reports the site as inconclusive
     return parts
 
 
 def _k2_targets():
     import importlib
     out = []
-    for key in SITE_DRIVERS:
-        f, fn, _ = key.split("::")
-        out.append(getattr(importlib.import_module(f[:-3].replace("/", ".")), fn))
+    for key in sorted(scan_sites()):
+        if key in SITE_DRIVERS:
+            f, fn, _ = key.split("::")
+            obj = importlib.import_module(f[:-3].replace("/", "."))
+            for part in fn.split("."):
+                obj = getattr(obj, part)
+            out.append(obj)
     return out
 
 
@@ -1879,8 +2167,8 @@ KERNELS = [
            timeout={"quick": 100, "thorough": 1100}, max_depth=600),
     Kernel("K2", "iteration order of sets does not reach results: AST-located set-to-sequence sites under a symbolic permutation",
            k2_set_order, targets=_k2_targets, parts=_k2_parts,
-           perturb=[("rearrangement_counts_as_change", {"site": list(SITE_DRIVERS)[1], "n": 2, "name_len": 2}),
-                    ("constructor_sees_keyword_order", {"site": list(SITE_DRIVERS)[2]})],
+           perturb=[("insertion_order_counts", {"site": SITE_PPTX, "n": 2}),
+                    ("constructor_sees_keyword_order", {"site": SITE_DESER})],
            bounds={"quick": {"set elements": "<= 3"}, "thorough": {"set elements": "<= 4"}},
            symbolic=["every character of every style name (2 lower-case letters; equal names collapse by solver-decided equality)",
                      "two permutations of the set's elements (position of each element, all-different)",
